@@ -181,7 +181,7 @@ theorem mintQuote_reject_noop (cx : Cx) (qid : Nat) (amount : UInt64) (u : Bool)
 
 theorem meltQuote_reject_noop (cx : Cx) (qid : Nat) (inv : InvReq) (m : Nat → UInt64) (u : Bool) (mpp : Option UInt64)
     (s s' : DL) (e : E) (h : runM (requestMeltQuote cx qid inv m u mpp) s = (s', .error e)) : s' = s := by
-  rcases requestMeltQuote_cases cx qid inv m u mpp s s' _ h with ⟨e', _, hs⟩ | ⟨hh, q, _, he, _⟩
+  rcases requestMeltQuote_cases cx qid inv m u mpp s s' _ h with ⟨e', _, hs⟩ | ⟨ii, hh, q, _, he, _⟩
   · exact hs
   · cases he
 
